@@ -1186,14 +1186,14 @@ func genParams(rng *rand.Rand, hostile bool) prf.Params {
 		for range p.Gens {
 			f := prf.Fault{A: rng.Float64(), B: rng.Float64(), DelayUs: int(rng.Int63n(1 << uint(rng.Intn(10))))}
 			switch x := rng.Intn(100); {
-			case x < 8:
-			case x < 18:
+			case x < 6:
+			case x < 14:
 				f.Kind = "rdb-first"
-			case x < 32:
+			case x < 24:
 				f.Kind = "rdb-mid"
-			case x < 64:
+			case x < 52:
 				f.Kind = "rdb-last"
-			case x < 84:
+			case x < 70:
 				f.Kind = "close-last"
 			default:
 				f.Kind = "log"
@@ -1261,6 +1261,16 @@ func copyDirs(base string) map[string][]imgFile {
 	return out
 }
 
+func newestHeaderOnly(img *image) bool {
+	for _, fs := range img.Dirs {
+		di := analyse(fs)
+		if n := len(di.segs); n > 0 && di.segs[n-1].Raw == hdr {
+			return true
+		}
+	}
+	return false
+}
+
 // countEntries: files in all run-id directories under base.
 func countEntries(base string) int {
 	n := 0
@@ -1312,6 +1322,36 @@ func (p *proc) exited() bool {
 
 const sampleWatchdog = 60 * time.Second
 
+// collectInProcess takes over what the child observed on its live cache (readers under an idle
+// writer after a refused write, the lagging-reader/collector shape of a restarted tool).
+func collectInProcess(r *harness.Run, caseKey string, p *prf.Params, shm *prf.Shm) {
+	r.Count("inprocess_sweeps", shm.Load(prf.SlotLiveChecks))
+	r.Count("inprocess_sweeps_after_refused_log_write", shm.Load(prf.SlotLiveFault))
+	r.Count("inprocess_sweeps_lagging_reader_after_collector", shm.Load(prf.SlotLiveLag))
+	r.Count("inprocess_readers", shm.Load(prf.SlotLiveReaders))
+	r.Count("inprocess_bytes_verified", shm.Load(prf.SlotLiveBytes))
+	r.Eval(int(shm.Load(prf.SlotLiveChecks)))
+	b, err := os.ReadFile(p.Shm + ".findings")
+	if err != nil {
+		return
+	}
+	for _, line := range strings.Split(strings.TrimSpace(string(b)), "\n") {
+		var f struct {
+			Kind, Sig, What string
+			Detail          map[string]any
+		}
+		if json.Unmarshal([]byte(line), &f) != nil {
+			continue
+		}
+		if f.Kind == "violation" {
+			r.Violation(f.Sig, caseKey, f.What, map[string]any{"observed_in": "writer child, live cache (not a frozen image)", "detail": f.Detail, "params": p,
+				"how_to_replay": "VERIF_CASE=" + caseKey + " re-runs this chain (the schedule is timing dependent; the fault itself is deterministic)"})
+		} else {
+			r.Inconclusive("%s: in-process probe: %s: %s", caseKey, f.Sig, f.What)
+		}
+	}
+}
+
 // runCase runs one child chain (with PRNG kills and restarts) and returns its images.
 func runCase(r *harness.Run, ci int, root, childBin string, perCase int) []*image {
 	caseKey := fmt.Sprintf("case-%d", ci)
@@ -1329,6 +1369,7 @@ func runCase(r *harness.Run, ci int, root, childBin string, perCase int) []*imag
 		return nil
 	}
 	defer shm.Close()
+	defer collectInProcess(r, caseKey, &p, shm)
 	total := int64(0)
 	for _, g := range p.Gens {
 		total += g.S + g.Log
@@ -1456,7 +1497,13 @@ func runCase(r *harness.Run, ci int, root, childBin string, perCase int) []*imag
 				<-ch.done
 				return images
 			}
-			if kills < 2 && rng.Intn(100) < 12 {
+			// a kill while the newest log file holds only its header is the start of a history of
+			// its own (the restarted writer re-creates that file): take it more often
+			killPct := 12
+			if st := img.Shm; st.Phase == prf.PhaseLog && newestHeaderOnly(img) {
+				killPct = 45
+			}
+			if kills < 2 && rng.Intn(100) < killPct {
 				// the process dies here; the tool is restarted on the same directory
 				kills++
 				_ = ch.cmd.Process.Kill()
@@ -1552,6 +1599,7 @@ func main() {
 	r.Assume("a process stopped by SIGSTOP with every thread in state T performs no system call, so a copy of its directory is the image a SIGKILL at that instant would leave (page cache included; power loss is not modelled)")
 	r.Assume("the source can continue inside the generation the cache is in and answers FULLRESYNC otherwise; a restarted writer follows RedisInput: StartPoint, [DelRunId], SetRunId, NewRdbWriter/NewAofWritter")
 	r.Assume("hostile chains (every third case): a refused write is produced with RLIMIT_FSIZE in the child (SIGXFSZ ignored, write(2) stores what fits and fails with EFBIG; stands for ENOSPC/EDQUOT/EIO); after it the child follows RedisInput.Run: run error, back-off, start over")
+	r.Assume("in-process sweeps run in the writer child while its writer is parked in the source reader (idle, every handed chunk stored) and no collector pass overlaps: reported valid => NewReader succeeds and delivers PRF bytes up to the reported right edge, nothing beyond; a stall is decided on 400 polls of the child's own run time without a byte, its 30 s watchdog is inconclusive")
 	r.Assume("alterations: one per opened copy, only files with a recorded checksum (finalised segments, the renamed snapshot); a truncated snapshot keeps more than its 8 trailer bytes")
 
 	wantImages := r.N(150, 5000)
